@@ -18,7 +18,12 @@ void _faceIjkPentToVerts(FaceIJK *f, int *res, FaceIJK *v) { __CPROVER_assert(in
 Overage _adjustOverageClassII(FaceIJK *f, int res, int pentLeading4, int substrate) { __CPROVER_assert(!in_pent && substrate == 1 && pentLeading4 == 0 && nadj < 6, "hexagon: one substrate overage adjustment per vertex"); f->face = s_face[nadj++]; return NO_OVERAGE; }
 Overage _adjustPentVertOverage(FaceIJK *f, int res) { __CPROVER_assert(in_pent && nadj < 5, "pentagon: one adjustment per vertex"); f->face = s_face[nadj++]; return NO_OVERAGE; }
 void harness(void) {
-    in_h = vp_u64("in_h"); in_pent = vp_int("in_pent") & 1; in_err = vp_int("in_err");
+    in_h = vp_u64("in_h"); in_err = vp_int("in_err");
+    // the pentagon flag is what isPentagon computes on this word (pentagon base cell, all used digits 0): an implementation that
+    // derives it by other means than calling isPentagon must agree with it
+    { int bc = (int)((in_h >> 45) & 127), r0 = (int)((in_h >> 52) & 15), allz = 1;
+      for (int r = 1; r <= 15; r++) if (r <= r0 && ((in_h >> (3 * (15 - r))) & 7)) allz = 0;
+      in_pent = spec_is_pent_bc(bc) && allz; }
     __CPROVER_assume(in_err >= 0 && in_err <= 15);
     for (int i = 0; i < 6; i++) { s_face[i] = vp_int_i("s_face", i); __CPROVER_assume(s_face[i] >= 0 && s_face[i] < 20); }
     VP_EXCLUDE();
